@@ -6,8 +6,9 @@ import json
 STRUCTS = [{"name": "S1", "fields": [{"n": "a", "t": {"b": "int", "a": 0, "m": 0, "ia": 0}}, {"n": "b", "t": {"b": "string", "a": 0, "m": 0, "ia": 0}}]},
            {"name": "S2", "fields": [{"n": "a", "t": {"b": "int", "a": 0, "m": 0, "ia": 0}}]},
            {"name": "S3", "fields": [{"n": "s", "t": {"b": "S1", "a": 0, "m": 0, "ia": 0}}, {"n": "xs", "t": {"b": "int", "a": 1, "m": 0, "ia": 0}}]},
-           {"name": "S4", "fields": [{"n": "a", "t": {"b": "float", "a": 0, "m": 0, "ia": 0}}, {"n": "b", "t": {"b": "txt", "a": 0, "m": 0, "ia": 0}}]}]
-DECLS = "filetype txt;\n\nstruct S1(\n    int a,\n    string b,\n)\n\nstruct S2(\n    int a,\n)\n\nstruct S3(\n    S1 s,\n    int[] xs,\n)\n\nstruct S4(\n    float a,\n    txt b,\n)\n\n"
+           {"name": "S4", "fields": [{"n": "a", "t": {"b": "float", "a": 0, "m": 0, "ia": 0}}, {"n": "b", "t": {"b": "txt", "a": 0, "m": 0, "ia": 0}}]},
+           {"name": "S5", "fields": [{"n": "per", "t": {"b": "int", "a": 0, "m": 1, "ia": 0}}, {"n": "n", "t": {"b": "int", "a": 0, "m": 0, "ia": 0}}]}]
+DECLS = "filetype txt;\n\nstruct S1(\n    int a,\n    string b,\n)\n\nstruct S2(\n    int a,\n)\n\nstruct S3(\n    S1 s,\n    int[] xs,\n)\n\nstruct S4(\n    float a,\n    txt b,\n)\n\nstruct S5(\n    map<int> per,\n    int n,\n)\n\n"
 
 
 def T(b, a=0, m=0, ia=0):
